@@ -901,6 +901,12 @@ func stopPlans(l *Log, start Pos, r *rand.Rand, stride int) []AttemptPlan {
 		a.ConnFault = cf
 		out = append(out, a)
 	}
+	// after everything else was delivered: a well-formed UPDATE with a cell in its before image that cannot be decoded
+	{
+		a := defaultAttempt()
+		a.Inject = &Inject{Kind: "badcell", At: npk}
+		out = append(out, a)
+	}
 	// the first connection of the attempt dies before the checksum announcement is answered; should the library dial again within
 	// the same Stream call, that connection is healthy and the dump ends with a master error
 	{
